@@ -98,7 +98,17 @@ pub fn gen_name(r: &mut Rng, odd: bool) -> String {
 }
 
 pub fn boundary_u64(r: &mut Rng) -> u64 {
-    match r.below(8) {
+    match r.below(9) {
+        8 => {
+            // neighbours of a rounding tie: for a 53+s bit integer the halfway points between two doubles are
+            // the odd multiples of 2^(s-1); the integers just beside them must round to different doubles
+            let s = 1 + r.below(11) as u32;              // integers of 54 .. 64 bits
+            let top = (1u64 << 52) | (r.next() >> 12);    // 53 significant bits
+            let base = top << s;
+            let half = 1u64 << (s - 1);
+            let n = base.wrapping_add(half);
+            match r.below(3) { 0 => n, 1 => n.wrapping_sub(1), _ => n.wrapping_add(1) }
+        }
         0 => {
             let k = r.below(64);
             let b = 1u64 << k;
@@ -605,6 +615,24 @@ pub fn generate(family: &str, seed: u64, count: usize, emit: &mut dyn FnMut(Stri
                     emit(format!("cmp {} {}", p, e));
                 }
             }
+            // integers beside a rounding tie of the integer -> double conversion, in every bit length from 54 to 64
+            // and on the negative side: as_f64 must be the nearest double, and comparing with it must say equal
+            for s in 1..=11u32 {
+                for j in 0..24 {
+                    let top = (1u64 << 52) | (r.next() >> 12) & !1 | (j & 1);
+                    let n0 = (top << s).wrapping_add(1u64 << (s - 1));
+                    for n in [n0.wrapping_sub(1), n0, n0.wrapping_add(1)] {
+                        let mut vals = vec![Value::from(n)];
+                        if n <= i64::MAX as u64 { vals.push(Value::from(-(n as i64))); }
+                        for v in vals {
+                            let e = enc_value_text(&v);
+                            emit(format!("acc {}", e));
+                            let f = if v.as_u64().is_some() { n as f64 } else { -(n as i64) as f64 };
+                            emit(format!("cmp f64:{:016x} {}", f.to_bits(), e));
+                        }
+                    }
+                }
+            }
             for _ in 0..count {
                 let p = gen_prim(&mut r, None);
                 emit(format!("from {}", p));
@@ -686,7 +714,36 @@ pub fn generate(family: &str, seed: u64, count: usize, emit: &mut dyn FnMut(Stri
         }
         "trivia" => {
             // the same values printed plainly and with trivia at every token boundary
-            for _ in 0..count {
+            for i in 0..count {
+                if i % 4 == 3 {
+                    // token level: spellings the printer never emits (long literals, radix prefixes, character names,
+                    // escapes), separated by one space in one text and by arbitrary trivia in the other
+                    let n = 1 + r.below(4);
+                    let toks: Vec<String> = (0..n).map(|_| match r.below(8) {
+                        0 | 1 => gen_num_literal(&mut r),
+                        2 => { let k = 20 + r.below(12); format!("{}.{}", r.below(10), digits(&mut r, 10, k)) }
+                        3 => { let k = 10 + r.below(8); format!("{}e-{}", 1 + r.below(9), digits(&mut r, 10, k)) }
+                        4 => r.pick(&["#\\space", "#\\x41", "#\\a", "#t", "#false", "#nil", "\"a\\x41;b\"", "\"\"", "#u8(1 2)", "#()", "()"]).to_string(),
+                        5 => gen_ident(&mut r),
+                        6 => r.pick(&["'a", "`(a ,b)", ",@x", "(a . b)", "#(1 #(2))", "..."]).to_string(),
+                        _ => { let k = 1 + r.below(18); format!("#x{}", digits(&mut r, 16, k)) }
+                    }).collect();
+                    let wrap = r.below(3);
+                    let (open, close) = match wrap { 0 => ("", ""), 1 => ("(", ")"), _ => ("#(", ")") };
+                    let a = format!("{}{}{}", open, toks.join(" "), close);
+                    let mut b = String::new();
+                    if r.chance(1, 2) { b.push_str(&gen_trivia(&mut r, false)); }
+                    b.push_str(open);
+                    for (j, t) in toks.iter().enumerate() {
+                        if j > 0 { b.push_str(&gen_trivia(&mut r, true)); } else if r.chance(1, 2) { b.push_str(&gen_trivia(&mut r, false)); }
+                        b.push_str(t);
+                    }
+                    if r.chance(1, 2) { b.push_str(&gen_trivia(&mut r, false)); }
+                    b.push_str(close);
+                    if r.chance(1, 2) { b.push_str(&gen_trivia(&mut r, false)); }
+                    emit(format!("triv {} {} {} {}", fast_flag(), R_DEFAULT, hex(a.as_bytes()), hex(b.as_bytes())));
+                    continue;
+                }
                 let (p, ro) = loop {
                     let p = gen_popts(&mut r);
                     if let Some(ro) = compatible_ropts(&mut r, &p) { break (p, ro); }
@@ -866,7 +923,7 @@ pub fn generate(family: &str, seed: u64, count: usize, emit: &mut dyn FnMut(Stri
                 emit(parse_op("b", R_DEFAULT, "v1", lit.as_bytes()));
                 // the same literal where what follows it matters, from the other sources too
                 if r.chance(1, 3) {
-                    let ctx = *r.pick(&["(@)", "(@ x)", "#(@ 1)", "(a . @)", "@ y", "(@;c\n)", "[@]", "'@", "(@\"s\")"]);
+                    let ctx = *r.pick(&["(@)", "(@ x)", "#(@ 1)", "(a . @)", "@ y", "(@;c\n)", "[@]", "'@", "(@\"s\")", "(\n @)", "\n\n@", "(a\n\n  @ b)", ";c\n@", "(\"x\ny\"\n@)"]);
                     let text = ctx.replace("@", &lit);
                     let src = *r.pick(&["b", "s", "i1", "I3", "i0"]);
                     let ro = if r.chance(1, 3) { gen_ropts(&mut r) } else { R_DEFAULT.to_string() };
@@ -1131,10 +1188,10 @@ pub const TOKEN_CORPUS: &[&str] = &[
     "1e", "1.", "-.5", "+.a", "12:", "1e3:", "a::", "x:y", "#x1F", "#b2",
     "+.a:", "-.foo:", "+..:", "-.:", "-a:", "...:", "..a:", "+:", "-:", "1#t", "#x1F#t", "-5#t", "1.5#f", "1|", "a#t", "+.5:", "-.5a", ".5:", "#t:", "'a:", "?a:", "#\\a:",
     // shorthands directly after one another, in every order; number prefixes running into bytes that end a number but not a symbol
-    "'`a", "`'a", ",'a", "',a", ",@'a", "',@a", "`,@a", "`,a", "''a", ",,a", "'`,a", ",@`'a", "12|x", "3\"a\"", "12|x:", "1e3\"s\"", "-7|", "+1.5|a", "#x1F|", "1.5e3|x",
+    "1e999", "2.5e+310", "-1e999", "'`a", "`'a", ",'a", "',a", ",@'a", "',@a", "`,@a", "`,a", "''a", ",,a", "'`,a", ",@`'a", "12|x", "3\"a\"", "12|x:", "1e3\"s\"", "-7|", "+1.5|a", "#x1F|", "1.5e3|x",
 ];
 
-pub const POSITIONS: &[&str] = &["@", "(@ x)", "(x @)", "(x . @)", "#(@)", "#(x @)", "[@]", "[x @]", "(@)", "(x @ y)", " @ ", "@;c", "'@", "(x . @ )", "[x . @]", "@\n", "@\x0c", "@\"s\"", "@|"];
+pub const POSITIONS: &[&str] = &["@", "(\n @)", "(@ x)", "(x @)", "(x . @)", "#(@)", "#(x @)", "[@]", "[x @]", "(@)", "(x @ y)", " @ ", "@;c", "'@", "(x . @ )", "[x . @]", "@\n", "@\x0c", "@\"s\"", "@|"];
 
 pub fn interesting_bytes() -> Vec<u8> {
     let mut v: Vec<u8> = b" \n\t\r\x0c()[]\"';`,.#\\|:?+-09aefnxtuUNv8%@_{}~!*^\x00\x7f\x01".to_vec();
